@@ -187,3 +187,17 @@ def same_containers(self: Ref['mqtt.client.pubsubs.MQTTProtocol']) -> bool:
     """the per-address windows and queue are still the same objects (only their contents may have changed)"""
     return (W(self) == old(W(self)) and R(self) == old(R(self)) and S(self) == old(S(self)) and U(self) == old(U(self))
             and X(self) == old(X(self)) and Q(self) == old(Q(self)))
+
+
+@spec
+def conn_untouched(self: Ref['mqtt.client.pubsubs.MQTTProtocol']) -> bool:
+    """the CONNECT request of a handshake in progress (if any) keeps its timer and its Deferred"""
+    return implies(old(isa(self.connReq, 'mqtt.pdu.CONNECT')), unchanged(self.connReq.alarm, self.connReq.deferred, self.connReq.keepalive))
+
+
+@spec
+def ping_untouched_by_handler(self: Ref['mqtt.client.pubsubs.MQTTProtocol']) -> bool:
+    """the keepalive deadline (if any) is still the same timer in the same condition"""
+    return (unchanged(self._pingReq.alarm)
+            and implies(old(is_ref(self._pingReq.alarm)),
+                        unchanged(self._pingReq.alarm.t_status, self._pingReq.alarm.t_fn, self._pingReq.alarm.t_owner, self._pingReq.alarm.t_arg)))
